@@ -433,6 +433,8 @@ func engineStopRule(c *Ctx, id string) {
 				reach, w := cfgx.ReachableFromEdges(failEdges(srcStop[0]), cancel, nil, c.posf())
 				c.R.Check(!reach, load.FuncName(fn)+": source-stop failure returns", c.pos(srcStop[0].Pos()), "a failed w.Stop returns without cancelling or forgetting the controller", "cancel() is reachable after a failed w.Stop", w...)
 			}
+			c.R.Check(!cfgx.InstrReaches(cancel, srcStop[0], nil), load.FuncName(fn)+": cancel after the sources", c.pos(cancel.Pos()),
+				"no source is stopped after c.cancel(): the controller's context is still live while its watches are torn down", "c.cancel() runs before the watches are stopped: a Stop issued with the controller's own (now cancelled) context, or any failed source stop, leaves a cancelled controller registered as running")
 			c.R.Check(cfgx.InstrReaches(cancel, delControllers, nil) && cancel.Block().Dominates(delControllers.Block()), load.FuncName(fn)+": cancel→delete", c.pos(delControllers.Pos()),
 				"delete(e.controllers, name) is dominated by c.cancel()", "the controller is forgotten without being cancelled")
 			// every nil-return on the running edge passes cancel: returns reachable from the block after the running test
